@@ -300,15 +300,17 @@ func runC15(c *eng.Ctx) {
 		r3.Check(carries, f.Key+" message-returned", f.Decl.Pos(), "a non-empty FailedMessage is returned as the answer", "no return under `response.FailedMessage != \"\"` carries the hook's message")
 
 		// R5
-		var stepLoop *ast.RangeStmt
+		var stepLoop *eng.ElemLoop
 		for _, call := range callsIn(info, f.Decl.Body, isObj(taskHandler)) {
-			if l, ok := eng.LoopOf(f.Decl.Body, call.Pos()).(*ast.RangeStmt); ok {
+			if l := elemLoopAt(info, f.Decl.Body, call.Pos()); l != nil {
 				stepLoop = l
 			}
 		}
 		okLoop := false
-		if stepLoop != nil && eng.IsAscendingLoop(info, stepLoop) {
-			if v, ok := eng.SelObj(info, stepLoop.X).(*types.Var); ok {
+		var stepPos token.Pos
+		if stepLoop != nil && !stepLoop.Desc {
+			stepPos = stepLoop.Stmt.Pos()
+			if v, ok := eng.SelObj(info, stepLoop.Base).(*types.Var); ok {
 				for _, e := range eng.AssignedExprs(info, f.Decl.Body, v) {
 					if isCallTo(info, e, findChain) {
 						okLoop = true
@@ -316,7 +318,18 @@ func runC15(c *eng.Ctx) {
 				}
 			}
 		}
-		r5.Check(okLoop, f.Key+" chain-order", posOf(stepLoop), "steps run in an ascending range over the result of FindConversionChain", "hooks are not invoked in an ascending range over the chain returned by FindConversionChain")
+		// the rule handed to the hook manager in each iteration is the element of that iteration
+		if stepLoop != nil {
+			hce := p.Method(pkgHook, "Manager", "HandleConversionEvent")
+			okElem := false
+			nCalls := 0
+			for _, call := range callsIn(info, stepLoop.Body, isObj(hce)) {
+				nCalls++
+				okElem = len(call.Args) == 4 && stepLoop.IsElem(call.Args[2])
+			}
+			r5.Check(nCalls == 1 && okElem, f.Key+" step-is-loop-element", stepPos, "HandleConversionEvent receives the chain element of the iteration", "the conversion step passed to the hooks is not the chain element of the current iteration: a step is run twice or skipped")
+		}
+		r5.Check(okLoop, f.Key+" chain-order", stepPos, "steps run in an ascending loop over the result of FindConversionChain", "hooks are not invoked in an ascending loop over the whole chain returned by FindConversionChain")
 		// Fail => no later step
 		failEdge := g.FactEdge(fieldEqConst(info, status, "Fail", true))
 		okFail := false
